@@ -244,3 +244,26 @@ Definition hd_spec_mon (ms : N) (i o : N) : option (N * bool) :=
                   end in
     Some (fields_w e + 67108864 * sp_enc (sp_next s e), o =? expect)
   else None.
+
+(* the specification as a monitor of USBControlEndpoint + StandardRequestHandler (setup decoder stubbed: its SetupPacket is an
+   input): tokens and handshakes are read where the DEVICE hands them to the control endpoint (EndpointInterface), so the control
+   endpoint's forwarding to its request handlers is inside the checked netlist.  Input word
+     s_recv[0] s_type[1..2] s_req[3..10] s_value[11..26] tokenizer.new_token[27] handshakes_in.ack[28]   (+ higher bits: the other
+     tokenizer fields, setup.length / is_in_request, rx_ready_for_response, ...: read by the control FSM only)
+   output word  address_changed[0] new_address[1..7] config_changed[8] new_config[9..16] status_requested[17]
+   (status_requested is the control endpoint's own strobe: an observation, as in dev_spec_mon). *)
+Definition ev_of_cio (i o : N) : ev :=
+  mkEv (nb (bits i 0 1)) (bits i 1 2) (bits i 3 8) (bits i 11 16)
+       (nb (bits i 27 1)) (nb (bits o 17 1)) (nb (bits i 28 1)) false.
+Definition ctl_spec_mon (ms : N) (i o : N) : option (N * bool) :=
+  let e := ev_of_cio i o in
+  let prevf := ms mod 67108864 in
+  let s := sp_dec (ms / 67108864) in
+  if e_recv e || (fields_w e =? prevf) then
+    let expect := match sp_commit s e with
+                  | Some (true, v) => 1 + 2 * (v mod 128)
+                  | Some (false, v) => 256 + 512 * (v mod 256)
+                  | None => 0
+                  end in
+    Some (fields_w e + 67108864 * sp_enc (sp_next s e), bits o 0 17 =? expect)
+  else None.
